@@ -4,6 +4,7 @@ use std::io::{self, BufRead, Write};
 use std::panic;
 
 mod color;
+mod tirdump;
 mod typemap;
 mod uigen;
 
@@ -13,6 +14,7 @@ fn main() {
     let f: fn(&serde_json::Value) -> serde_json::Value = match cmd {
         "color" => color::run,
         "typemap" => typemap::run,
+        "tir" => tirdump::run,
         "uigen" => uigen::run,
         _ => {
             eprintln!("usage: vh <color|...> < cases.jsonl");
